@@ -66,6 +66,11 @@ func tryReplay(cfg runConfig, res *runResult, v *violation) *replayResult {
 		idx, _ := strconv.Atoi(am[2])
 		return asmReplay(cfg.repo, am[1], idx)
 	}
+	if v.Kind == "safety" {
+		if sr := sliceSafetyReplay(cfg, res, v); sr != nil {
+			return sr
+		}
+	}
 	m := obligationNameRe.FindStringSubmatch(v.Obligation)
 	if m == nil {
 		logf("replay is implemented for `ensures` obligations only")
